@@ -88,6 +88,12 @@ CLAIMED = {
             'storeExplanation stores bound and coefficient unchanged and is the single writer of the vector both interpolators read. Necessary shape of every row '
             'certificate; the numeric cancellation (tableau values) is not decided.',
             'static analysis: special-purpose abstract interpretation (sign domain, case split on the two guards) over the structured mini-AST + dataflow/who-writes rules', ''),
+    'C29': ('other',
+            'Static assert-only / rejecting-gate rules (assert is compiled out of the release binary): the difference-logic atom intake tests every shape requirement on '
+            'a throwing non-assert branch and records the atom only after acceptance; the upstream isValid gates exist; constants are converted exactly with a rejecting '
+            'range test; the arithmetic constructors reject non-linear products and bad divisors by throwing; the logic tables and createTheory cover every Logic_t '
+            'enumerator; polymorphic constructors check operand sorts. Decides that the gates exist and reject, not that accepted input is answered correctly.',
+            'static analysis: ASSERT-ONLY / rejecting-branch rule, exhaustiveness and table-agreement rules over the type-checked AST (assert expansions tagged, -UNDEBUG)', ''),
 }
 
 NOT_APPLICABLE = {
